@@ -29,6 +29,7 @@ import (
 	"github.com/irai/packet"
 	"github.com/irai/packet/fastlog"
 	"github.com/irai/packet/handlers/arp_spoofer"
+	dhcp "github.com/irai/packet/handlers/dhcp4_spoofer"
 	"pvharness/lib"
 )
 
@@ -112,8 +113,8 @@ type failConn struct {
 	// (and of ProcessPacket, Scan) the harness can stop the REAL handler at: lookup and check have happened,
 	// the frame is decided, nothing is on the wire yet.
 	hold    bool
-	blocked int // writers that have arrived at the gate (cumulative)
-	passed  int // writes completed (cumulative)
+	blocked int             // writers that have arrived at the gate (cumulative)
+	passed  int             // writes completed (cumulative)
 	gate    chan struct{}   // closed by Unhold: everybody passes
 	waiters []chan struct{} // one per writer standing at the gate, in order of arrival
 }
@@ -152,6 +153,7 @@ func (c *failConn) WriteTo(b []byte, a net.Addr) (int, error) {
 	return n, err
 }
 func (c *failConn) SetFail(k int) { c.mu.Lock(); c.failN = k; c.mu.Unlock() }
+func (c *failConn) Fail() int     { c.mu.Lock(); defer c.mu.Unlock(); return c.failN }
 func (c *failConn) Attempts() int {
 	c.mu.Lock()
 	defer c.mu.Unlock()
@@ -287,12 +289,15 @@ func ip4(s string) netip.Addr {
 // ---------------------------------------------------------------- script interpreter
 
 type result struct {
-	toks       []string // the script with the hints actually observed
-	obs        string
-	suspicious bool // a frame arrived where the schedule does not expect one (timing jitter or a defect)
-	why        string
-	envOffers  int  // offer changes made by the session itself (Parse), reported as O events
-	dur        time.Duration
+	toks                 []string // the script with the hints actually observed
+	obs                  string
+	suspicious           bool // a frame arrived where the schedule does not expect one (timing jitter or a defect)
+	why                  string
+	envOffers            int // offer changes made by the session itself (Parse), reported as O events
+	staleOffers          int // the IP4Offer field read an address no DHCP event put there (OV observation)
+	dhcpNone             int // @DH tokens skipped: the DHCP server refused the configuration
+	dhcpOffers, dhcpAcks int // OFFER / ACK frames of the real DHCP server on the same session, taken as DHCP events
+	dur                  time.Duration
 }
 
 // waitAttempt polls until the handler has called WriteTo again (successfully or not) or the deadline passes.
@@ -327,7 +332,9 @@ func invalidCalls(h *arp_spoofer.Handler) []func() error {
 		func() error { return h.RequestRaw(m2, packet.Addr{IP: ip4(ipA)}, good) },
 		func() error { return h.RequestRaw(m2, good, packet.Addr{MAC: net.HardwareAddr{1, 2, 3}, IP: ip4(ipA)}) },
 		func() error { return h.Reply(m2, good, packet.Addr{MAC: m1, IP: in6}) },
-		func() error { return h.Reply(m2, packet.Addr{MAC: net.HardwareAddr{1, 2, 3, 4, 5, 6, 7}, IP: lib.RouterIP4}, good) },
+		func() error {
+			return h.Reply(m2, packet.Addr{MAC: net.HardwareAddr{1, 2, 3, 4, 5, 6, 7}, IP: lib.RouterIP4}, good)
+		},
 		func() error { return h.Request(netip.Addr{}) },
 		func() error { return h.Request(v6) },
 		func() error { return h.RequestTo(m2, in6) },
@@ -359,7 +366,7 @@ func execScript(args []string) (res result) {
 	for _, t := range args[1:] {
 		if t == "@H" {
 			heldScript = true
-		} else if strings.HasPrefix(t, "@") && t != "@R" && t != "@RL" && t != "@U" {
+		} else if strings.HasPrefix(t, "@") && t != "@R" && t != "@RL" && t != "@U" && !strings.HasPrefix(t, "@PG,") && !strings.HasPrefix(t, "@DH,") {
 			timedScript = true
 		}
 	}
@@ -398,11 +405,14 @@ func execScript(args []string) (res result) {
 	nInvalid := 0
 	nScans, nInvalidCalls := 0, 0
 	skipLKD := 0
+	skipOU := 0 // a replayed line carries the O / U tokens an @DH exchange regenerates
+	var dh *dhcp.Handler
+	xid := uint32(0x13000000)
 	var loopMAC []string           // MAC of loop i (a StartHunt of a MAC not hunted starts the next loop)
 	huntedNow := map[string]bool{} // the harness's own view of the hunt list (only to number the loops)
-	gated := false            // the connection holds every write
-	seenBlocked := 0          // writers seen at the gate so far
-	var bg chan struct{}      // a ProcessPacket / Scan call running in the background while the gate is held
+	gated := false                 // the connection holds every write
+	seenBlocked := 0               // writers seen at the gate so far
+	var bg chan struct{}           // a ProcessPacket / Scan call running in the background while the gate is held
 	seenAttempts := 0
 	take := func() [][]byte { seenAttempts = conn.Attempts(); return conn.Take() }
 	// ARGUMENT OWNERSHIP. A real caller hands the handler views of its own buffers (StartHunt(frame.SrcAddr), frames
@@ -472,7 +482,16 @@ func execScript(args []string) (res result) {
 			}
 			if cur != old {
 				offerView[m] = cur
-				toks = append(toks, "O,"+m+","+cur)
+				if cur == "-" {
+					// the entry (and the offer with it) vanished: Parse moved the IP, a purge deleted the MAC: a
+					// DHCP-relevant event of the history (the offer is withdrawn)
+					toks = append(toks, "O,"+m+","+cur)
+				} else {
+					// the field reads an address that no DHCP event of the history put there (a stale or invented
+					// offer): the model follows the field, the monitor judges by the history and is not told
+					toks = append(toks, "OV,"+m+","+cur)
+					res.staleOffers++
+				}
 				obs = append(obs, "-")
 				res.envOffers++
 			}
@@ -504,44 +523,131 @@ func execScript(args []string) (res result) {
 		}
 		if strings.HasPrefix(t, "@WN,") {
 			toks = append(toks, t)
-		// many loops tick at (almost) the same time: wait until every started loop has had the chance to write
-		// (n attempts, or the end of the window), then give each loop the frames addressed to its own MAC
-		// (a loop writes only to its own MAC: C13_loop_frames) as its Lookup/Check/Send
-		n, _ := strconv.Atoi(strings.TrimPrefix(t, "@WN,"))
-		spread := time.Duration(len(loopMAC)) * 8 * time.Millisecond
-		deadline := time.Now().Add(450*time.Millisecond + spread)
-		for conn.Attempts() < seenAttempts+n && time.Now().Before(deadline) {
-			time.Sleep(200 * time.Microsecond)
-		}
-		time.Sleep(3 * time.Millisecond)
-		fs := take()
-		used := make([]bool, len(fs))
-		for i, m := range loopMAC {
-			var mine [][]byte
-			for x, fr := range fs {
-				if !used[x] && len(fr) >= 6 && hex.EncodeToString(fr[0:6]) == m {
-					mine = append(mine, fr)
-					used[x] = true
-					break // one frame per loop and tick; a second one stays for the next loop of the same MAC
-				}
+			// many loops tick at (almost) the same time: wait until every started loop has had the chance to write
+			// (n attempts, or the end of the window), then give each loop the frames addressed to its own MAC
+			// (a loop writes only to its own MAC: C13_loop_frames) as its Lookup/Check/Send
+			n, _ := strconv.Atoi(strings.TrimPrefix(t, "@WN,"))
+			spread := time.Duration(len(loopMAC)) * 8 * time.Millisecond
+			deadline := time.Now().Add(450*time.Millisecond + spread)
+			for conn.Attempts() < seenAttempts+n && time.Now().Before(deadline) {
+				time.Sleep(200 * time.Microsecond)
 			}
-			if i == len(loopMAC)-1 {
+			time.Sleep(3 * time.Millisecond)
+			fs := take()
+			used := make([]bool, len(fs))
+			for i, m := range loopMAC {
+				var mine [][]byte
 				for x, fr := range fs {
-					if !used[x] {
+					if !used[x] && len(fr) >= 6 && hex.EncodeToString(fr[0:6]) == m {
 						mine = append(mine, fr)
+						used[x] = true
+						break // one frame per loop and tick; a second one stays for the next loop of the same MAC
+					}
+				}
+				if i == len(loopMAC)-1 {
+					for x, fr := range fs {
+						if !used[x] {
+							mine = append(mine, fr)
+						}
+					}
+				}
+				is := strconv.Itoa(i)
+				hint := "000000000000"
+				if len(mine) > 0 {
+					hint = hex.EncodeToString(mine[0][0:6])
+				}
+				toks = append(toks, "L,"+is, "K,"+is, "D,"+is+","+hint)
+				obs = append(obs, "-", "-", showOut(mine))
+			}
+			lastAt = -1
+			skipLKD = 3 * len(loopMAC) // a replayed line carries the L/K/D tokens this step regenerates
+			continue
+		}
+		if strings.HasPrefix(t, "@DH,") {
+			// "@DH,<mac>": a whole DHCP exchange of this client with the real dhcp4_spoofer server attached to this
+			// session: DISCOVER -> OFFER (the server calls SetDHCPv4IPOffer), REQUEST of the offered address -> ACK
+			// (the server calls DHCPv4Update). "@DH,<mac>,D": the DISCOVER / OFFER half only. The DHCP events of
+			// the history are what the server WROTE: "O,<mac>,<yiaddr>" for the OFFER, "U,<mac>,<yiaddr>" for the ACK.
+			f := strings.Split(t, ",")
+			toks = append(toks, t)
+			if dh == nil {
+				d, err := dhcp.Config{Mode: dhcp.ModePrimaryServer, NetfilterIP: netip.PrefixFrom(netip.AddrFrom4([4]byte{192, 168, 0, 129}), 25), DNSServer: c.routerIP}.New(session)
+				if err != nil || d == nil {
+					res.dhcpNone++ // this configuration's LAN has no room for the server's second subnet: no exchange
+					continue
+				}
+				dh = d
+			}
+			fk := conn.Fail()
+			conn.SetFail(0)
+			take()
+			cm := mac6(f[1])
+			xid++
+			say := func(msg []byte) (byte, [4]byte, bool) {
+				fr, err := session.Parse(dhcpFrame(cm, msg))
+				if err != nil {
+					return 0, [4]byte{}, false
+				}
+				dh.ProcessPacket(fr)
+				return dhcpReply(take(), xid, cm)
+			}
+			if mt, y, ok := say(mkDHCP(1, xid, cm)); ok && mt == 2 {
+				ys := hex.EncodeToString(y[:])
+				toks = append(toks, "O,"+f[1]+","+ys)
+				obs = append(obs, "-")
+				offerView[f[1]] = ys
+				skipOU++
+				res.dhcpOffers++
+				syncOffers()
+				if len(f) < 3 {
+					hi := c.hostIP.As4()
+					if mt, y2, ok := say(mkDHCP(3, xid, cm, append([]byte{50, 4}, y[:]...), append([]byte{54, 4}, hi[:]...))); ok && mt == 5 {
+						ys = hex.EncodeToString(y2[:])
+						toks = append(toks, "U,"+f[1]+","+ys)
+						obs = append(obs, "-")
+						offerView[f[1]] = ys
+						skipOU++
+						res.dhcpAcks++
 					}
 				}
 			}
-			is := strconv.Itoa(i)
-			hint := "000000000000"
-			if len(mine) > 0 {
-				hint = hex.EncodeToString(mine[0][0:6])
-			}
-			toks = append(toks, "L,"+is, "K,"+is, "D,"+is+","+hint)
-			obs = append(obs, "-", "-", showOut(mine))
+			conn.SetFail(fk)
+			seenAttempts = conn.Attempts()
+			syncOffers()
+			continue
 		}
-		lastAt = -1
-			skipLKD = 3 * len(loopMAC) // a replayed line carries the L/K/D tokens this step regenerates
+		if strings.HasPrefix(t, "@PG,") {
+			// the session's purge run with the clock moved forward by so many minutes (5: online hosts go offline,
+			// 70: offline hosts and their MAC entries are deleted). Not an event of the model; the ARP probes the
+			// session itself sends to its online hosts are not the handler's and are dropped (and do not eat a
+			// refused-write budget); what the purge did to the offers is reported by syncOffers.
+			min, _ := strconv.Atoi(strings.TrimPrefix(t, "@PG,"))
+			fk := conn.Fail()
+			conn.SetFail(0)
+			stray := take()
+			n := 0
+			for _, e := range session.GetHosts() {
+				e.MACEntry.Row.RLock()
+				if e.Online && e.Addr.IP.Is4() {
+					n++
+				}
+				e.MACEntry.Row.RUnlock()
+			}
+			before := conn.Attempts()
+			session.VerifPurge(time.Now().Add(time.Duration(min) * time.Minute))
+			for dl := time.Now().Add(time.Second); conn.Attempts() < before+n && time.Now().Before(dl); {
+				time.Sleep(200 * time.Microsecond)
+			}
+			time.Sleep(2 * time.Millisecond)
+			take()
+			if len(stray) > 0 {
+				res.suspicious = true
+				res.why += "purge-stray "
+			}
+			conn.SetFail(fk)
+			seenAttempts = conn.Attempts()
+			toks = append(toks, t)
+			syncOffers()
 			continue
 		}
 		if strings.HasPrefix(t, "@") {
@@ -559,6 +665,14 @@ func execScript(args []string) (res result) {
 			continue
 		}
 		skipLKD = 0
+		// (generators never put an O / U token right behind an @DH token)
+		if skipOU > 0 && (f[0] == "O" || f[0] == "U" || f[0] == "OV") {
+			if f[0] != "OV" {
+				skipOU--
+			}
+			continue
+		}
+		skipOU = 0
 		switch f[0] {
 		case "S":
 			h.StartHunt(packet.Addr{MAC: own(0, mac6(f[1])), IP: ip4(f[2])})
@@ -596,6 +710,22 @@ func execScript(args []string) (res result) {
 			obs = append(obs, showOut(take()))
 			toks = append(toks, t)
 			offerView[f[1]] = f[2]
+		case "U":
+			// the DHCP server's confirmation through the real session: DHCPv4Update(mac, ip). The history now says
+			// "confirmed ip"; whatever else the session's field reads afterwards is reported as OV by syncOffers.
+			err := session.DHCPv4Update(own(0, mac6(f[1])), ip4(f[2]), packet.NameEntry{})
+			scribble()
+			obs = append(obs, showOut(take()))
+			toks = append(toks, t)
+			if err == nil {
+				offerView[f[1]] = f[2]
+			} else {
+				res.suspicious = true
+				res.why += "update-refused "
+			}
+			syncOffers()
+		case "OV":
+			// a replayed line carries the observation tokens syncOffers regenerates
 		case "R":
 			op, _ := strconv.Atoi(f[1])
 			dst := packet.EthernetBroadcast
@@ -1002,9 +1132,18 @@ func genImmediate(rng *lib.Rand, n int) []string {
 			m := pick(rng, macs)
 			toks = append(toks, "T,"+m)
 			delete(hunted, m)
-		case k < 46:
+		case k < 42:
 			o := pick(rng, []string{ipA, ipB, ipC, ipRouter, ipOff, "-"})
 			toks = append(toks, "O,"+pick(rng, macs)+","+o)
+		case k < 45:
+			// the DHCP confirmation through the real session (client online, offline or unknown at this point)
+			toks = append(toks, "U,"+pick(rng, macs)+","+pick(rng, []string{ipA, ipB, ipC}))
+		case k < 46 && rng.Chance(50):
+			// the real DHCP server on the same session (never directly followed by an O / U token)
+			m := pick(rng, macs)
+			toks = append(toks, "@DH,"+m+pick(rng, []string{"", "", ",D"}), "R,1,"+m+","+m+","+ipZero+",000000000000,"+pick(rng, lanIPs))
+		case k < 46:
+			toks = append(toks, "@PG,"+pick(rng, []string{"6", "6", "70"}))
 		case k < 49:
 			toks = append(toks, "C")
 		case k < 52:
@@ -1272,6 +1411,29 @@ func directed() [][]string {
 		// with the probed address, one renewed with another address
 		{"O," + m2 + "," + ipA, probe(m3, ipB), "O," + m3 + "," + ipA, probe(m3, ipB), "O," + m3 + ",-", probe(m3, ipB),
 			"O," + m3 + "," + ipB, probe(m3, ipB), "O," + m3 + "," + ipC, probe(m3, ipB), probe(m2, ipA), probe(m2, ipB)},
+		// the offer state produced by the real session API in every order, client unknown / online (sighted) / offline
+		// (purged to offline) / deleted: SetDHCPv4IPOffer (O), DHCPv4Update (U), frame sighting (who), purge (@PG)
+		// unknown client: offer A, confirmed B: its probe for B passes, for C is rejected (offer B outstanding)
+		{"O," + m3 + "," + ipA, "U," + m3 + "," + ipB, probe(m3, ipB), probe(m3, ipC)},
+		// online at B (sighted), offered A, confirmed B while online: the probe for B must pass
+		{who(m3, ipB), "O," + m3 + "," + ipA, probe(m3, ipB), "U," + m3 + "," + ipB, probe(m3, ipB), probe(m3, ipA), probe(m3, ipC)},
+		// the same with the confirmation first, and with the client offline / deleted in between
+		{who(m3, ipB), "U," + m3 + "," + ipB, "O," + m3 + "," + ipA, probe(m3, ipB), probe(m3, ipA)},
+		{who(m3, ipB), "O," + m3 + "," + ipA, "@PG,6", probe(m3, ipB), "U," + m3 + "," + ipB, probe(m3, ipB), probe(m3, ipA)},
+		{who(m3, ipB), "O," + m3 + "," + ipA, "@PG,6", "@PG,70", probe(m3, ipB), "U," + m3 + "," + ipB, probe(m3, ipB), who(m3, ipB), probe(m3, ipC)},
+		{who(m3, ipB), "U," + m3 + "," + ipB, "@PG,6", "O," + m3 + "," + ipA, who(m3, ipB), "U," + m3 + "," + ipB, probe(m3, ipB), "U," + m3 + "," + ipC, probe(m3, ipB), probe(m3, ipC)},
+		// two clients: m2 takes over m3's address by confirmation; each MAC's offer is its own
+		{who(m3, ipB), who(m2, ipA), "O," + m3 + "," + ipC, "O," + m2 + "," + ipC, "U," + m2 + "," + ipB, probe(m2, ipB), probe(m3, ipB), "U," + m3 + "," + ipA, probe(m3, ipA), probe(m2, ipA)},
+		// a hunted client is confirmed while online: spoof replies go on, its probe for the confirmed address passes
+		{"S," + m1 + "," + ipA, "W,0,0", who(m1, ipA), "O," + m1 + "," + ipB, "U," + m1 + "," + ipA, probe(m1, ipA), who(m1, ipA), probe(m1, ipB)},
+		// the offer produced by the real DHCP server (dhcp4_spoofer) on the same session: OFFER then ACK off the wire;
+		// the client's probe for the address it was given passes, a probe for another one is rejected; a client
+		// that was online elsewhere, or holds an API offer, or is hunted, goes through the same exchange
+		{"@DH," + m3, probe(m3, ipA), probe(m3, ipB), probe(m3, ipC), probe(m3, "c0a80081"), probe(m3, "c0a80082")},
+		{"@DH," + m3 + ",D", probe(m3, ipA), probe(m3, ipB), "@DH," + m3, probe(m3, ipA), probe(m3, ipB)},
+		{who(m3, ipB), "O," + m3 + "," + ipC, "@DH," + m3, probe(m3, ipA), probe(m3, ipB), probe(m3, ipC), "@PG,6", probe(m3, ipA), probe(m3, ipB)},
+		{who(m2, ipA), "@DH," + m2 + ",D", probe(m2, ipA), "U," + m2 + "," + ipA, probe(m2, ipA), probe(m2, ipB), "@DH," + m2, probe(m2, ipA), probe(m2, ipB)},
+		{"S," + m1 + "," + ipA, "W,0,0", "@DH," + m1, who(m1, ipA), probe(m1, ipA), probe(m1, ipB), "@DH," + m3, probe(m3, ipA), probe(m3, ipB), probe(m1, ipB)},
 		// K1: probe for the router's address from an unhunted MAC with another offer
 		{"O," + m3 + "," + ipA, probe(m3, ipRouter)},
 		// K3: spoof reply after Close
@@ -1624,6 +1786,10 @@ func main() {
 				res := runCase(r, s, 3)
 				r.Stat("class.immediate", 1)
 				r.Stat("env.offer-changed-by-parse", int64(res.envOffers))
+				r.Stat("env.offer-field-without-dhcp-event", int64(res.staleOffers))
+				r.Stat("env.dhcp-server-offer-on-the-wire", int64(res.dhcpOffers))
+				r.Stat("env.dhcp-server-refused-configuration", int64(res.dhcpNone))
+				r.Stat("env.dhcp-server-ack-on-the-wire", int64(res.dhcpAcks))
 			}
 		}()
 	}
